@@ -8,8 +8,8 @@ Theorem C02_lines_recoverable : forall ls : list str, ls <> [] ->
 Proof. exact (split_join c_nl). Qed.
 
 (* escape processing on read mirrors escaping on write (shared with C04) *)
-Theorem C02_escape_mirrors : forall s, escape_safe s = true -> unescape (escape s) = s.
-Proof. exact unescape_escape. Qed.
+Theorem C02_escape_mirrors : forall s, unescape (escape s) = s.
+Proof. exact unescape_escape_all. Qed.
 
 (* the reader model consumes the alias / operator tables of the current source *)
 Theorem C02_pin_lexer_tables :
